@@ -478,6 +478,8 @@ class FileResponse(Response, FileResponseMixin):
 
         stat_result = self.stat_result
         file_size = stat_result.st_size
+        # a response object may serve several requests: forget the last one
+        self.headers.pop("content-range", None)
 
         http_range: Optional[str] = None
         http_if_range: Optional[str] = None
